@@ -7,7 +7,7 @@ From Coq Require Import List NArith ZArith Bool.
 From Coq Require Import Strings.Byte.
 From Falco Require Import Base.Res Base.Bytes Model.StoreSyntax.
 Import ListNotations.
-Open Scope Z_scope.
+Local Open Scope Z_scope.
 
 Fixpoint str_eqb (a b : str) : bool :=
   match a, b with
